@@ -247,6 +247,10 @@ func (e *EvalBinaryNode) EvalInt(scope *Scope, executionState ExecutionState) (i
 }
 
 func (e *EvalBinaryNode) eval(scope *Scope, executionState ExecutionState) (resultContainer, *ErrSide) {
+	return e.evalRetry(scope, executionState, 0)
+}
+
+func (e *EvalBinaryNode) evalRetry(scope *Scope, executionState ExecutionState, retries int) (resultContainer, *ErrSide) {
 	if e.evaluationFn == nil {
 		err := e.determineError(scope, executionState)
 		return boolFalseResultContainer, &ErrSide{error: err}
@@ -261,20 +265,20 @@ func (e *EvalBinaryNode) eval(scope *Scope, executionState ExecutionState) (resu
 	// the comparison fn
 	if err != nil {
 		if typeGuardErr, isTypeGuardError := err.error.(ErrTypeGuardFailed); isTypeGuardError {
+			// Each side can change its type at most once for a given scope, if the type guard
+			// still fails after both sides have been fixed (for example a unary minus applied
+			// to a string) trying again cannot succeed.
+			if retries >= 2 {
+				return boolFalseResultContainer, err
+			}
+
 			// Fix the type info, thanks to the type guard info
-			prevLeftType, prevRightType := e.leftType, e.rightType
 			if err.IsLeft {
 				e.leftType = typeGuardErr.ActualType
 			}
 
 			if err.IsRight {
 				e.rightType = typeGuardErr.ActualType
-			}
-
-			// The type guard failed although the types are what we already assumed
-			// (for example a unary minus applied to a string), trying again cannot succeed.
-			if e.leftType == prevLeftType && e.rightType == prevRightType {
-				return boolFalseResultContainer, err
 			}
 
 			// redefine the evaluation fn
@@ -284,7 +288,7 @@ func (e *EvalBinaryNode) eval(scope *Scope, executionState ExecutionState) (resu
 			}
 
 			// try again
-			return e.eval(scope, executionState)
+			return e.evalRetry(scope, executionState, retries+1)
 		}
 	}
 
